@@ -151,13 +151,17 @@ def ctx():
 
 class SymBool:
     """boolean backed by a z3 formula; bool() asks the explorer"""
-    __slots__ = ('c',)
+    __slots__ = ('c', 'cb')
 
-    def __init__(self, c):
+    def __init__(self, c, cb=None):
         self.c = c
+        self.cb = cb          # optional callback(decision) -- used by Angle to refine its window
 
     def __bool__(self):
-        return CUR[0].decide(self.c)
+        d = CUR[0].decide(self.c)
+        if self.cb is not None:
+            self.cb(d)
+        return d
 
     def __and__(self, o):
         return SymBool(z3.And(self.c, _bf(o)))
@@ -168,7 +172,8 @@ class SymBool:
     __ror__ = __or__
 
     def __invert__(self):
-        return SymBool(z3.Not(self.c))
+        cb = self.cb
+        return SymBool(z3.Not(self.c), None if cb is None else (lambda d: cb(not d)))
 
     def __repr__(self):
         return 'SymBool(%s)' % str(self.c)[:80]
@@ -193,6 +198,9 @@ def _cmp(op):
         c = d.const()
         if c is not None:
             return {'<': c < 0, '<=': c <= 0, '>': c > 0, '>=': c >= 0, '==': c == 0, '!=': c != 0}[op]
+        sg = fld._syntactic_sign(d)
+        if sg:
+            return {'<': sg < 0, '<=': sg < 0, '>': sg > 0, '>=': sg > 0, '==': False, '!=': True}[op]
         return SymBool(CUR[0].zc.cmp0(d, op))
     return f
 
